@@ -146,16 +146,37 @@ func unboxDB(v value) *modelStore {
 	return s
 }
 
+// A model tree is boxed as a real-shaped MutableTree struct whose embedded
+// *ImmutableTree field points at the model (so that promoted methods such as
+// tree.Version(), which SSA resolves through that field, still find it).
 func unboxTree(v value) *modelTree {
 	pv, ok := v.(*value)
 	if !ok || pv == nil {
 		nilDeref()
 	}
-	t, ok := (*pv).(*modelTree)
-	if !ok {
-		unsupp("iavl tree is not a model tree (%T)", *pv)
+	switch x := (*pv).(type) {
+	case *modelTree:
+		return x
+	case structure:
+		if inner, ok := x[0].(*value); ok && inner != nil {
+			if t, ok := (*inner).(*modelTree); ok {
+				return t
+			}
+		}
 	}
-	return t
+	unsupp("iavl tree is not a model tree (%T)", *pv)
+	return nil
+}
+
+func boxTree(fr *frame, t *modelTree) *value {
+	mt := namedType(fr, iavlPkg, "MutableTree")
+	st := zero(mt).(structure)
+	if f := mt.Underlying().(*types.Struct).Field(0); f.Name() != "ImmutableTree" {
+		unsupp("iavl.MutableTree layout changed (field 0 is %s)", f.Name())
+	}
+	st[0] = boxed(t)
+	var cell value = st
+	return &cell
 }
 
 func copyKV(m map[string][]value) map[string][]value {
@@ -254,7 +275,7 @@ func registerStore(ex *Explorer) {
 		it := args[0].(iface)
 		s := unboxDB(it.v)
 		t := &modelTree{st: s, working: map[string][]value{}}
-		return tuple{boxed(t), iface{}}
+		return tuple{boxTree(fr, t), iface{}}
 	}
 	ex.register(iavlPkg+".NewMutableTree", newTree)
 	ex.register(iavlPkg+".NewMutableTreeWithOpts", newTree)
@@ -299,10 +320,7 @@ func registerStore(ex *Explorer) {
 		return tuple{target, iface{}}
 	})
 	ex.register(tr("Version"), func(fr *frame, args []value) value { return unboxTree(args[0]).version })
-	ex.register("(*"+iavlPkg+".ImmutableTree).Version", func(fr *frame, args []value) value {
-		unsupp("ImmutableTree.Version on model")
-		return nil
-	})
+	ex.register("(*"+iavlPkg+".ImmutableTree).Version", func(fr *frame, args []value) value { return unboxTree(args[0]).version })
 	ex.register(tr("Get"), func(fr *frame, args []value) value {
 		t := unboxTree(args[0])
 		v, ok := t.working[keyString(args[1].([]value))]
